@@ -411,6 +411,9 @@ def compare(driver, sc: dict, sched_seed: int):
             # the configuration must satisfy the hypotheses of the scheduler theorems
             lines.append("wf")
             impl_obs.append("wf")
+            # ... and of the liveness theorems: shapes always; a flat (group-less) scenario must be `Flat` with the computed ranking
+            lines.append("wfx")
+            impl_obs.append("wfx:flat" if not any(x["group"] for x in sc["sims"]) else "wfx:grouped")
     # a deadlock is reported on the last real action
     if c.deadlock and impl_obs:
         for j in range(len(impl_obs) - 1, -1, -1):
@@ -426,6 +429,13 @@ def compare(driver, sc: dict, sched_seed: int):
         if want is None:
             continue
         cm, ci = canon_model(got), canon_impl(want)
+        if want.startswith("wfx:"):
+            ok = got.startswith("shape=true") and (want == "wfx:grouped" or got.endswith("flat=true"))
+            if ok or nonuniform_cutoff(sc, True):
+                sc["_flat_hyp"] = got.endswith("flat=true")
+                continue
+            return False, {"phase": "step", "index": j, "request": lines[nbuild + j], "impl": want, "model": got,
+                           "prefix": lines[nbuild:nbuild + j]}, c
         if want == "wf" and got == "not-wf" and nonuniform_cutoff(sc, True):
             # outside the theorems' hypotheses for the recorded reason (finding D7); behaviour is still compared
             sc["_d7"] = True
@@ -645,6 +655,8 @@ def run_sched_suite(driver, rng: random.Random, n_scenarios: int, n_schedules: i
                 hist[ft] += 1
             if d7:
                 hist["class:D7-reentrant-paths"] += 1
+            if sc.pop("_flat_hyp", False):
+                hist["hypotheses:Flat (deadlock_free_flat applies)"] += 1
             distinct.add((json.dumps(sc, sort_keys=True), tuple(a[0][1:3] for a in c.actions if a[0][0] == "reply")))
             if not agree:
                 dis.append({"suite": name, "scenario": sc, "schedule_seed": sseed, **detail})
